@@ -75,14 +75,19 @@ def build_c16_engine(fl, K=str):
 PY_GRAMMAR = '''
 def grammatical(words, inputs, outputs, hedges, numbers, loose=False):
     # `if` antecedent `then` consequent [`with` number];  antecedent: operand ((and|or) operand)* with balanced parentheses
-    # (their placement is not judged); operand: variable `is` hedge* (term-of-that-variable | any);  consequent: output `is`
+    # (their placement is judged only where it leaves a connective without an operand inside its group: "( and" and "and )"); operand: variable `is` hedge* (term-of-that-variable | any);  consequent: output `is`
     # hedge* term (`and` ...)*.  Returns True iff the token list has none of the statement's error classes.
     # loose=True is the signature of the recorded finding: the connectives of the antecedent may stand anywhere, as long as
     # there is exactly one fewer than there are operands.
     START, A_VAR, A_IS, A_HT, A_END, C_VAR, C_IS, C_HT, C_END, W_NUM, DONE = range(11)
     allvars = dict(inputs); allvars.update(outputs)
     st, depth, cur, nconn, nprop = START, 0, None, 0, 0
+    prev = None
     for w in words:
+        # a connective has an operand on either side WITHIN its parentheses: none directly after "(" or directly before ")"
+        if not loose and st in (A_VAR, A_IS, A_HT, A_END) and ((prev == "(" and w in ("and", "or")) or (prev in ("and", "or") and w == ")")):
+            return False
+        prev = w
         if st in (A_VAR, A_IS, A_HT, A_END) and w in ("(", ")"):
             depth += 1 if w == "(" else -1
             if depth < 0:
@@ -160,8 +165,12 @@ def z_grammatical(kinds, vocab, loose=False):
     st, depth, cur = z3.IntVal(START), z3.IntVal(0), z3.IntVal(-1)
     nconn, nprop = z3.IntVal(0), z3.IntVal(0)
     ite = z3.If
+    prev_open, prev_conn = F, F
     for k in kinds:
         in_ante = z3.Or(st == A_VAR, st == A_IS, st == A_HT, st == A_END)
+        # a connective directly after "(" or directly before ")" has no operand on that side within its group
+        adjacent = F if loose else z3.And(in_ante, z3.Or(z3.And(prev_open, isw(k, "and", "or")), z3.And(prev_conn, isw(k, ")"))))
+        prev_open, prev_conn = isw(k, "("), isw(k, "and", "or")
         paren = z3.And(in_ante, isw(k, "(", ")"))
         skipconn = z3.And(in_ante, isw(k, "and", "or")) if loose else F
         skip = z3.Or(paren, skipconn)
@@ -183,7 +192,7 @@ def z_grammatical(kinds, vocab, loose=False):
         ncur = ite(z3.And(z3.Not(skip), starts), k, cur)
         nprop = ite(z3.And(z3.Not(skip), st == A_HT, nst == A_END), nprop + 1, nprop)
         nconn = ite(skipconn, nconn + 1, nconn)
-        st, depth, cur = ite(paren, ite(ndepth < 0, REJ, st), ite(skipconn, st, nst)), ndepth, ncur
+        st, depth, cur = ite(adjacent, REJ, ite(paren, ite(ndepth < 0, REJ, st), ite(skipconn, st, nst))), ndepth, ncur
     return z3.Or(st == C_END, st == DONE)
 
 
